@@ -50,6 +50,7 @@ type c19Scenario struct {
 	Mode     string // long-lived | persisted-mem | persisted-fs
 	Size     uint32
 	Lang     string // Config.Language
+	Res      string // "" = the harness's recording resource; "menu" = resource.MenuResource with per-session closures
 }
 
 func hubApp(slack int) *app.App {
@@ -114,6 +115,7 @@ var c19Scenarios = []c19Scenario{
 	{Name: "moves-2x3-long-lived", Build: moveApp, Sessions: [][]string{{"", "1", "0"}, {"", "2", "9"}}, Mode: "long-lived"},
 	{Name: "moves-3x2-persisted-fs", Build: moveApp, Sessions: [][]string{{"", "1"}, {"", "2"}, {"", "5"}}, Mode: "persisted-fs"},
 	{Name: "moves-2x3-persisted-mem", Build: moveApp, Sessions: [][]string{{"", "1", "0"}, {"", "zz", "1"}}, Mode: "persisted-mem"},
+	{Name: "moves-2x3-menu-resource", Build: moveApp, Sessions: [][]string{{"", "1", "0"}, {"", "1", "1"}}, Mode: "long-lived", Res: "menu"},
 	{Name: "same-sink-browse-2x3", Build: pagedShared, Sessions: [][]string{{"", "11", "11"}, {"", "11", "22"}}, Mode: "long-lived", Size: 26},
 	{Name: "one-ends-one-browses-2x3", Build: pagedShared, Sessions: [][]string{{"", "0"}, {"", "11", "11"}}, Mode: "persisted-fs", Size: 26},
 }
@@ -143,7 +145,10 @@ func (d yieldDb) Get(ctx context.Context, k []byte) ([]byte, error) {
 func c19Serve(sc c19Scenario, a *app.App, id string, inputs []string, dir string, yield func(string)) (tr []string) {
 	env := app.NewEnv()
 	env.Yield = yield
-	res := &app.Res{App: a, Env: env}
+	var res resource.Resource = &app.Res{App: a, Env: env}
+	if sc.Res == "menu" {
+		res = app.NewMenuRes(&app.Res{App: a, Env: env})
+	}
 	cfg := engine.Config{SessionId: id, OutputSize: sc.Size, FlagCount: a.FlagCount, Root: a.Root, Language: sc.Lang}
 	var en *engine.DefaultEngine
 	var mem func() db.Db
